@@ -175,6 +175,20 @@ Proof.
   unfold pt_at. rewrite !iterate_frame by exact N. reflexivity.
 Qed.
 
+Theorem smooth_frame_cases g fixed_idx targets tol2 iters p j :
+  (is_boundary (g_ct g) (g_cells g) j = true \/ In j fixed_idx
+   \/ (exists t, In t targets /\ (sqdist t (pt_at p j) < tol2)%Q) \/ g_n g <= j) ->
+  pt_at (smooth g fixed_idx targets tol2 iters p) j = pt_at p j.
+Proof.
+  intro H. apply smooth_frame.
+  intros (Hn & Hb & Hf). unfold fixed_set in Hf. rewrite in_app_iff in Hf.
+  destruct H as [H|[H|[H|H]]].
+  - congruence.
+  - tauto.
+  - apply Hf. right. apply fix_points_spec. split; [exact Hn|exact H].
+  - lia.
+Qed.
+
 Lemma smooth_lengths g fixed_idx targets tol2 iters xs ys zs :
   let '(xs', ys', zs') := smooth g fixed_idx targets tol2 iters (xs, ys, zs) in
   length xs' = length xs /\ length ys' = length ys /\ length zs' = length zs.
